@@ -152,6 +152,7 @@ func init() {
 		Phases: func(tier universe.Tier) []*harness.Phase {
 			return []*harness.Phase{
 				{Name: "known-nesting", Rule: "cyclic words x depths, nest under known fields of R; distinct by (word, verdict profile)", Body: func(c *explore.C) { c15Body(c, tier, false) }},
+				{Name: "wide-shallow", Rule: "messages 2-6 levels deep whose containers hold N in {1,2,100,1021..1025,2100,5000} strings / structs / lists / map entries, known and unknown position: all must be accepted (well inside 48 levels), whatever their width", Body: func(c *explore.C) { c15Wide(c, tier) }},
 				{Name: "unknown-nesting", Rule: "cyclic words x depths 1..200, the nest placed under an unknown field id (skipped by the dependency's skipper, bound 64)", Body: func(c *explore.C) { c15Body(c, tier, true) }},
 			}
 		},
@@ -238,4 +239,85 @@ func c15Body(c *explore.C, tier universe.Tier, unknown bool) {
 	harness.Cur.Sample(func() interface{} {
 		return map[string]interface{}{"word": name, "depths_tried": len(depths), "last_accepted_steps": lastAccept, "first_rejected_steps": firstReject, "max_accepted_levels": maxAcceptLevels, "unknown_position": unknown}
 	})
+}
+
+var c15Widths = []int{1, 2, 100, 1021, 1022, 1023, 1024, 1025, 2100, 5000}
+
+// c15Wide: shallow but wide messages must be accepted: the depth budget is per level, not per element.
+func c15Wide(c *explore.C, tier universe.Tier) {
+	shape := c.Choose(6, explore.Data, "shape")
+	n := c15Widths[c.Choose(len(c15Widths), explore.Data, "width")]
+	depth := 1 + c.Choose(3, explore.Data, "steps-above")
+	unknown := c.Bool(explore.Data, "unknown-position")
+	harness.Cur.Crumb(c.Choices())
+	hooks.Reset()
+	// innermost wide container placed in a field of R after `depth` S-steps
+	id := byte([]int{2, 3, 4, 5, 6, 2}[shape])
+	if unknown {
+		id = 99
+	}
+	var in []byte
+	cnt := []byte{byte(n >> 24), byte(n >> 16), byte(n >> 8), byte(n)}
+	switch shape {
+	case 0, 5: // list<R> of n empty structs (shape 5: each element holds X=1)
+		in = append([]byte{15, 0, id, 12}, cnt...)
+		for i := 0; i < n; i++ {
+			if shape == 5 {
+				in = append(in, 8, 0, 7, 0, 0, 0, 1)
+			}
+			in = append(in, 0)
+		}
+	case 1: // set<R>
+		in = append([]byte{14, 0, id, 12}, cnt...)
+		for i := 0; i < n; i++ {
+			in = append(in, 0)
+		}
+	case 2: // map<i32:R>
+		in = append([]byte{13, 0, id, 8, 12}, cnt...)
+		for i := 0; i < n; i++ {
+			in = append(in, byte(i>>24), byte(i>>16), byte(i>>8), byte(i), 0)
+		}
+	case 3: // map<R:i32> (pointer keys)
+		in = append([]byte{13, 0, id, 12, 8}, cnt...)
+		for i := 0; i < n; i++ {
+			in = append(in, 0, 0, 0, 0, 1)
+		}
+	case 4: // list<list<R>> with n inner lists of one struct
+		in = append([]byte{15, 0, id, 15}, cnt...)
+		for i := 0; i < n; i++ {
+			in = append(in, 12, 0, 0, 0, 1, 0)
+		}
+	}
+	var msg []byte
+	for i := 0; i < depth; i++ {
+		msg = append(msg, 12, 0, 1)
+	}
+	msg = append(msg, in...)
+	msg = append(msg, 0)
+	for i := 0; i < depth; i++ {
+		msg = append(msg, 0)
+	}
+	dst := &universe.R{}
+	r := Dec(msg, dst)
+	cs := &harness.Case{Property: "C15", Class: "shallow-rejected", Type: "universe.R (recursive)", Detail: map[string]interface{}{"shape": shape, "width": n, "struct_steps_above": depth, "unknown_position": unknown, "result": r.String()}}
+	if r.Panic != nil || r.Err != nil || r.N != len(msg) {
+		if r.Panic != nil {
+			cs.Class = "panic"
+		}
+		c.Fail(fmt.Sprintf("a message only %d levels deep but %d elements wide is not accepted: %v", depth+3, n, r), cs)
+		return
+	}
+	if !unknown {
+		cur := dst
+		for i := 0; i < depth; i++ {
+			cur = cur.S
+		}
+		got := []int{len(cur.L), len(cur.T), len(cur.MV), len(cur.MK), len(cur.LL), len(cur.L)}[shape]
+		if got != n {
+			cs.Class = "wrong-value"
+			c.Fail(fmt.Sprintf("wide container decoded with %d of %d elements", got, n), cs)
+			return
+		}
+	}
+	harness.Cur.Outcome(harness.Hash64([]byte{byte(shape), byte(n), byte(n >> 8), byte(depth)}, []byte(fmt.Sprint(unknown))), fmt.Sprintf("shape%d", shape))
 }
